@@ -16,7 +16,12 @@ THEOREMS = [
     "Spowtd.mystery_asserts",
     "Spowtd.flags_agree",
 ]
-TRUSTED_BASE = TRUSTED
+TRUSTED_BASE = TRUSTED + [
+    "translator tools/gen_schema.py: spowtd/schema.sql as parsed by SQLite itself (PRAGMA table_info / index_list / "
+    "foreign_key_list; CHECK clauses and view bodies cut from the stored CREATE text) -> lean/SchemaTie/Generated.lean; "
+    "the declarations the proofs assume are re-checked by `rfl` on every run (SchemaTie/Classify.lean)",
+]
+SCHEMA_TIE = ('Classify',)
 ASSUMPTIONS = ASSUME
 RULE = ("as C01 (tables grid_time_flags and zeta_interval of type interstorm), plus every pair of boolean vectors "
         "(rise flag, rain flag) up to length 6 (quick) / 8 (thorough) through classify.get_mystery_jump_mask against "
